@@ -221,6 +221,7 @@ func cmdCheck(args []string) int {
 	if pc.Oracle != nil {
 		findings = pc.Oracle(cx, runs)
 	}
+	findings = append(findings, runDirect(cx, cx.N(400, 20000))...)
 
 	kn := loadKnown(*known)
 	isKnown := func(f Finding) bool {
@@ -363,6 +364,9 @@ func cmdReplay(args []string) int {
 	}
 	if text == "" {
 		return 0
+	}
+	if strings.HasPrefix(text, "direct ") {
+		return replayDirect(text)
 	}
 	if f, ok := rep["finding"].(map[string]interface{}); ok && f["sequence"] == true {
 		return replaySequence(text)
